@@ -359,6 +359,21 @@ def o4_o5_cases(state):
     i1, i2 = IndexedSymbol("m", None, units.mass), IndexedSymbol("m", None, units.mass)
     if i1 == i2 or i1[i1.index] == i2[i2.index]:
         bad.append("two IndexedSymbols with equal display names alias")
+    # human-readable printing of indexed symbols, bare and as elements, through every printer: never the generated name
+    i3 = IndexedSymbol("w", None, units.mass)
+    for expr in (i3, 2 * i3, i3[i3.index], sp.Eq(a, a + 1, evaluate=False).subs(a, i3) if False else 3 * i3 + a):
+        for pr, txt in (("print_expression", S.print_expression(expr)), ("code_str", code_str(expr)), ("latex_str", latex_str(expr))):
+            if re.search(r"(SYM|FUN|QTY)\d", txt):
+                bad.append(f"{pr} shows a generated internal name for an indexed symbol: {txt!r}")
+    # clones keep the source's LaTeX name when none is given (sources whose LaTeX name differs from the code name)
+    srcl = Symbol("w_0", units.mass, display_latex="\\omega_0")
+    for mk, nm in ((clone_as_indexed, "clone_as_indexed"), (clone_as_symbol, "clone_as_symbol")):
+        cl = mk(srcl)
+        if cl.display_latex != srcl.display_latex or cl.display_name != srcl.display_name or cl.dimension is not srcl.dimension:
+            bad.append(f"{nm} of a source with LaTeX name {srcl.display_latex!r} has names {(cl.display_name, cl.display_latex)}")
+    cfl = clone_as_function(srcl, [a])
+    if cfl.display_latex != srcl.display_latex or cfl.display_name != srcl.display_name:
+        bad.append(f"clone_as_function of a source with LaTeX name {srcl.display_latex!r} has names {(cfl.display_name, cfl.display_latex)}")
     src = Symbol("m", units.mass)
     ci = clone_as_indexed(src)
     ci2 = clone_as_indexed(src)
